@@ -1,18 +1,21 @@
 import ScriggoV.Model.Tree
 import ScriggoV.Gen.AstSchema
 import ScriggoV.Spec.AstAssumptions
+import ScriggoV.Model.CloneAttrs
 /-! Line protocol of C28.
 
     kinds | fields | annotations                      -> ok <name>…
-    schema|xref|ptr|list|cloned|cloneUnguarded|walkUnguarded|neverNil <Kind>   -> ok <field>…
+    schema|xref|ptr|list|cloned|handCopied|cloneUnguarded|walkUnguarded|neverNil|neverParenthesised <Kind>   -> ok <field>…
     walked <Kind>                                     -> ok <step>…      step = F | F>G
     isexpr|cloneHandled|walkHandled|walkIncomplete <Kind>  -> ok true|false
     ids <tree> | walk <tree>                          -> ok <id>…
     clone <off> <tree>                                -> ok <tree>
+    parenOut <Kind> <p>                               -> ok <count|none>…   one per exit of the arm
+    clonePos <Kind>                                   -> ok cloned|ctor|other
 
 tree (prefix, fixed arity):  <Kind> <id> <n> (<field> <tree>)^n        -/
 namespace ScriggoV.Drv.C28
-open ScriggoV.Tree ScriggoV.Gen.AstSchema ScriggoV.Spec.AstAssumptions
+open ScriggoV.Tree ScriggoV.Gen.AstSchema ScriggoV.Spec.AstAssumptions ScriggoV.CloneAttrs
 
 abbrev Tr := T Kind Field
 abbrev Fo := F Kind Field
@@ -65,6 +68,15 @@ def handle : List String → Option String
   | ["kinds"] => some (okWords (Kind.all.map Kind.name))
   | ["fields"] => some (okWords (Field.all.map Field.name))
   | ["annotations"] => some (okWords (annotations.map (fun p => p.1.name ++ "." ++ p.2)))
+  | ["parenOut", k, p] => do
+    let k ← Kind.ofName k
+    let p ← p.toNat?
+    pure (okWords ((cloneExits k).map (fun e => match parenOut cloneEpilogueParen p e with
+      | some n => toString n
+      | none => "none")))
+  | ["clonePos", k] => do
+    let k ← Kind.ofName k
+    pure (okWords [match clonePos k with | .cloned => "cloned" | .ctor => "ctor" | .other => "other"])
   | [op, k] => do
     let k ← Kind.ofName k
     match op with
@@ -76,6 +88,8 @@ def handle : List String → Option String
     | "cloneUnguarded" => pure (fieldsOf (cloneUnguarded k))
     | "walkUnguarded" => pure (fieldsOf (walkUnguarded k))
     | "neverNil" => pure (fieldsOf (neverNil k))
+    | "neverParenthesised" => pure (fieldsOf (neverParenthesised k))
+    | "handCopied" => pure (fieldsOf (handCopied k))
     | "walked" => pure (okWords ((walked k).map stepName))
     | "isexpr" => pure (okWords [toString (isExpr k)])
     | "cloneHandled" => pure (okWords [toString (cloneHandled k)])
